@@ -54,8 +54,10 @@ ReqStep(q) ==
   \* C17 through the actor: a registration succeeds exactly for a document that exists, and the list read back is the
   \* five most recently registered distinct peers, most recent first
   /\ (Prop = "C17" /\ q.op \in {"RegisterPeer", "GetPeers"}) =>
-        /\ (q.res = "ok") = (R.res = "ok")
-        /\ (q.op = "GetPeers" /\ q.res = "ok") => q.val = R.val
+        \* a registration succeeds exactly for a document that exists; a read that answers gives the list of the document
+        \* (nothing for a document that is not there) - whether reading asks for an open document is not C17's business
+        /\ q.op = "RegisterPeer" => (q.res = "ok") = (R.res = "ok")
+        /\ q.op = "GetPeers" => IF q.res = "ok" THEN q.val = st.docs[q.d].peers ELSE ~IsOpen(st, q.d)
   /\ Prop = "C14" => \/ Silent(st, q)
                      \/ q.op \in {"RegisterPeer", "GetPeers"}          \* (not C14's subject)
                      \/ /\ (q.res = "ok") = (R.res = "ok")
